@@ -392,9 +392,17 @@ func scenarioC10(r *Run) {
 	// sits in the parent's unprotected bucket at that moment (entries the
 	// encoder would refuse, a not-yet-signed countersignature holder) must not
 	// matter, because that bucket is not covered
-	if _, ph := libParentAt(m1, ms, path); ph != nil && constructed {
+	if _, ph := libParentAt(m1, ms, path); ph != nil && (constructed || len(ph.RawProtected) > 0) {
 		saved := ph.Unprotected
 		savedRaw := ph.RawUnprotected
+		savedProt := ph.Protected
+		if len(ph.RawProtected) > 0 && t.Bool(1, 2, "c10.junk.rawonly") {
+			// a parent held as raw protected bytes only (a store that keeps
+			// the covered bytes and rebuilds the rest)
+			ph.Protected = nil
+			r.Fired("app.parent-raw-only-protected")
+		}
+		defer func() { ph.Protected = savedProt }()
 		junk := cose.UnprotectedHeader{}
 		for k, v := range saved {
 			junk[k] = v
@@ -419,7 +427,7 @@ func scenarioC10(r *Run) {
 			cs2.Headers.Protected[cose.HeaderLabelAlgorithm] = cose.Algorithm(a)
 			r.Lib(func() { e2 = cs2.Sign(ent, inner, arg, external) })
 		}
-		ph.Unprotected, ph.RawUnprotected = saved, savedRaw
+		ph.Unprotected, ph.RawUnprotected, ph.Protected = saved, savedRaw, savedProt
 		if e != nil || e2 != nil {
 			r.Fail("countersignature-depends-on-parent-unprotected/"+pkName+"/"+form, "with an unencodable entry in the parent's UNPROTECTED bucket: Verify of an existing countersignature %v, making a new one %v", e, e2)
 			return
